@@ -547,6 +547,11 @@ class TGen:
         if d > 0 and r.random() < 0.4:
             o = self.boolean(v, vt, d - 1)
             if o is not None:
+                if r.random() < 0.3:
+                    # the numpy-style cut: & | ^ of two truth values is a truth value
+                    self.bitops = getattr(self, "bitops", 0) + 1
+                    self.interesting = True
+                    return f"(({b}) {r.choice(['&', '|', '^'])} ({o}))"
                 return f"({b} {r.choice(['and', 'or'])} {o})"
         return b
 
@@ -673,6 +678,8 @@ def judge_stage(ctx, stream, cur_t, rnd):
         ctx.count("conditionals-with-equal-branch-types")
     if getattr(g, "records_cond", 0):
         ctx.count("conditionals-of-records-with-permuted-fields", g.records_cond)
+    if getattr(g, "bitops", 0):
+        ctx.count("bit-operators-on-two-truth-values", g.bitops)
     if getattr(g, "unary", 0):
         ctx.count("unary-operators", g.unary)
     if getattr(g, "bool_arith", 0):
